@@ -3,6 +3,9 @@
    script and the results observed on the real pkg/stream writer.
    Verdict bits: 1 = the model's output differs from the implementation's;
    2 = the implementation's output fails the property checker [check_c47];
+   (for concurrent valve scenarios: 1 = the observed event sequence is not one
+   the lock-level transition system can produce, 2 = an underlying Write was
+   in flight or began after a Shut had returned);
    8 = a logged downstream call lies outside the oracle's domain (c > len):
        the harness itself is wrong. *)
 From Coq Require Import List Arith ZArith NArith.
@@ -12,6 +15,10 @@ From Mv Require Import Model.Stream.
 (* short constructors printed by the Go harness *)
 Definition R (n : nat) (e : err) (cs : list call) : wres := (n, e, cs).
 Definition K (d : list nat) (n : nat) (e : err) : call := (d, n, e).
+(* events of the concurrent valve scenarios *)
+Definition Fb (t : nat) : event := EvFwdBegin t.
+Definition Fe (t : nat) : event := EvFwdEnd t.
+Definition Sr (t : nat) : event := EvShutRet t.
 (* the count is printed as an N literal (writes near 64 KiB) *)
 Definition L (n : N) (e : err) (cbs : list (list nat)) : lres := (N.to_nat n, e, cbs).
 (* a run of [n] equal bytes (for writes near the 64 KiB default cap) *)
